@@ -27,3 +27,4 @@ import NetflowModel.Props.C17
 import NetflowModel.Props.C17b
 import NetflowModel.Props.H1
 import NetflowModel.Props.Ctl
+import NetflowModel.Props.ExportGen
